@@ -3,8 +3,8 @@
 Mirrors `doit/loader.py` (`load_tasks`, `_get_task_creators`, `generate_tasks`, `_generate_task_from_return`,
 `_generate_task_from_yield`, `flat_generator`), `doit/task.py` (`dict_to_task`, `Task.__init__`, `Task.check_attr`,
 `Task.valid_attr`, `_init_deps`, `_expand_*`, `_init_getargs`) and `doit/control.py` (`TaskControl.__init__`,
-`_check_dep_names`, `set_implicit_deps`, `_get_wild_tasks`) **as they are now** (including the `fix:` commit that
-made a dangling `calc_dep` an invalid task).
+`_check_dep_names`, `set_implicit_deps`, `_get_wild_tasks`) **as they are now** (including the `fix:` commits c7a3018 dangling `calc_dep`,
+5a43f74 type-exact `check_attr`, 379257a tuple `uptodate`, 5cc6c19 `basename` check, eeaaa80 command-named `basename`).
 
 Abstraction.  A task-dict value is its top-level Python type plus the facts the code depends on: `isinstance`,
 `==`-membership in the accepted-values tuple (`1 == True`, `1.0 == 1`, `0 == False`), truthiness, hashability.
@@ -49,8 +49,15 @@ def RawVal.isInstance : RawVal → PyType → Bool
   | .callable, .callable => true
   | _, _ => false
 
-/-- Python `value == literal` (what `value in valid[1]` evaluates) -/
+/-- `type(value) is type(literal) and value == literal` (`Task.check_attr` after the fix 5a43f74) -/
 def RawVal.eqLit : RawVal → Lit → Bool
+  | .none, .none => true
+  | .bool b, .true => b
+  | .int m, .int n => m == (n : Int)
+  | _, _ => false
+
+/-- pinned `check_attr` (before 5a43f74): Python `value == literal`, i.e. `1 == True`, `1.0 == 1`, `False == 0` -/
+def RawVal.eqLitPinned : RawVal → Lit → Bool
   | .none, .none => true
   | .bool b, .true => b
   | .int n, .true => n == 1
@@ -114,6 +121,8 @@ def modelChecked : List Attr := (modelValidAttr.map (·.1)).filter (· != .basen
 /-- `Task.check_attr` -/
 def checkAttr (v : RawVal) (s : Spec) : Bool := s.1.any v.isInstance || s.2.any v.eqLit
 
+def checkAttrPinned (v : RawVal) (s : Spec) : Bool := s.1.any v.isInstance || s.2.any v.eqLitPinned
+
 /-- a task dictionary: python dict (keys distinct; first binding wins in `get`) -/
 abbrev TDict := List (Attr × RawVal)
 
@@ -143,6 +152,8 @@ inductive Err where | invalidTask | invalidDodo | crash (e : Exn)
 deriving DecidableEq, Repr
 
 abbrev R (α : Type) := Except Err α
+
+deriving instance DecidableEq for Except
 
 def seqItems : Option RawVal → List Name
   | some (.list l) => l
@@ -177,14 +188,19 @@ def cleanStep : Option RawVal → R Unit
   | some (.dict _) => .ok ()
   | some _ => .error (.crash .typeError)      -- iterating a non-iterable (`clean: 1`, `clean: 1.0`)
 
-/-- `uptodate.extend(self._init_getargs())` when `getargs` is not empty: Python looks up `uptodate.extend` first
-    (AttributeError on a non-empty tuple), then evaluates `_init_getargs()` (InvalidTask on a malformed entry) -/
+/-- `uptodate = list(uptodate) if uptodate else []; uptodate.extend(self._init_getargs())` (after the fix 379257a
+    a tuple `uptodate` is copied into a list): InvalidTask on a malformed `getargs` entry, else the tasks it names -/
 def getargsStep (d : TDict) : R (List Name) :=
   if (getargsEntries (get d .getargs)).isEmpty then .ok []
+  else if (getargsEntries (get d .getargs)).any (fun e => e.2.isNone) then .error .invalidTask
+  else .ok ((getargsEntries (get d .getargs)).filterMap (·.2))
+
+/-- pinned (before 379257a): `uptodate.extend` is looked up first — AttributeError on a non-empty tuple -/
+def getargsStepPinned (d : TDict) : R (List Name) :=
+  if (getargsEntries (get d .getargs)).isEmpty then .ok []
   else match get d .uptodate with
-    | some (.tuple (_ :: _)) => .error (.crash .attributeError)   -- tuple has no `extend`
-    | _ => if (getargsEntries (get d .getargs)).any (fun e => e.2.isNone) then .error .invalidTask
-           else .ok ((getargsEntries (get d .getargs)).filterMap (·.2))
+    | some (.tuple (_ :: _)) => .error (.crash .attributeError)
+    | _ => getargsStep d
 
 def strName : Option RawVal → R Name
   | some (.str s) => .ok s
@@ -312,13 +328,25 @@ def yieldPlain (tasks : Tasks) (d0 : TDict) (bn : RawVal) : R Tasks :=
             | .error e => .error e
             | .ok t => .ok (insert tasks t.name t))
 
-/-- `_generate_task_from_yield` for a dict -/
-def yieldDict (tasks : Tasks) (fn : Name) (d : TDict) (nf bf : Name) : R Tasks :=
+/-- `if 'basename' in task_dict: Task.check_attr(func_name, 'basename', …)` (fix 5cc6c19) -/
+def basenameOk (d : TDict) : Bool :=
+  match get d .basename with
+  | none => true
+  | some v => match validAttr .basename with
+    | some s => checkAttr v s
+    | none => false
+
+/-- `_generate_task_from_yield` for a dict, before the `basename` check was added (pinned) -/
+def yieldDictPinned (tasks : Tasks) (fn : Name) (d : TDict) (nf bf : Name) : R Tasks :=
   match get (del d .basename) .name with
   | some nv =>
     if nv = .none then yieldGroupAttrs tasks (del d .basename) (baseOf fn d)
     else yieldSub tasks (del d .basename) (baseOf fn d) nv nf bf
   | none => yieldPlain tasks (del d .basename) (bnOf d)
+
+/-- `_generate_task_from_yield` for a dict -/
+def yieldDict (tasks : Tasks) (fn : Name) (d : TDict) (nf bf : Name) : R Tasks :=
+  if !basenameOk d then .error .invalidTask else yieldDictPinned tasks fn d nf bf
 
 def yieldOne (fn : Name) (tasks : Tasks) : Yielded → R Tasks
   | .other => .error .invalidTask
@@ -379,18 +407,24 @@ def insertByLine (c : Creator) : List Creator → List Creator
 /-- `funcs.sort(key=line)` — stable -/
 def sortByLine (cs : List Creator) : List Creator := cs.foldl (fun acc c => insertByLine c acc) []
 
-def generateAll : List Creator → R (List Task)
+/-- `_process_gen` (fix eeaaa80): a generated task that is not a sub-task must not be named like a command -/
+def cmdClash (cmds : List Name) (ts : List Task) : Bool :=
+  ts.any (fun t => t.subtaskOf.isNone && cmds.contains t.name)
+
+def generateAll (cmds : List Name) : List Creator → R (List Task)
   | [] => .ok []
   | c :: cs => match generate c.name c.result with
     | .error e => .error e
-    | .ok ts => match generateAll cs with
-      | .error e => .error e
-      | .ok rest => .ok (ts ++ rest)
+    | .ok ts =>
+      if cmdClash cmds ts then .error .invalidDodo
+      else match generateAll cmds cs with
+        | .error e => .error e
+        | .ok rest => .ok (ts ++ rest)
 
 /-- `loader.load_tasks` (no delayed creators, no `@task_params`) -/
 def loadTasks (cmds : List Name) (cs : List Creator) : R (List Task) :=
   if cs.any (fun c => cmds.contains c.name) then .error .invalidDodo
-  else generateAll (sortByLine cs)
+  else generateAll cmds (sortByLine cs)
 
 /-! ## `TaskControl.__init__` -/
 
@@ -439,34 +473,10 @@ def control (ts : List Task) : R (List Task) :=
 
 /-! ## decidable hypotheses of the C18 theorems (evaluated by the driver on every generated case) -/
 
-/-- `clean` is a number equal to `True` (`1`, `1.0`): passes `check_attr`, then `for a in clean` fails -/
-def cleanBad : Option RawVal → Bool
-  | some (.int n) => n == 1
-  | some (.float h) => h == 2
-  | _ => false
-
-/-- `uptodate` is a non-empty tuple and `getargs` is not empty: `uptodate.extend` does not exist -/
-def tupleExtend (d : TDict) : Bool :=
-  !(getargsEntries (get d .getargs)).isEmpty &&
-    (match get d .uptodate with | some (.tuple (_ :: _)) => true | _ => false)
-
-/-- a truthy unhashable `basename` in a yielded dict -/
-def basenameBad (d : TDict) : Bool := (bnOf d).truthy && !(bnOf d).hashable
-
-def initSafe (d : TDict) : Bool := !cleanBad (get d .clean) && !tupleExtend d
-
 def yieldedDicts : List Yielded → List TDict
   | [] => []
   | .dict d _ _ :: ys => d :: yieldedDicts ys
   | _ :: ys => yieldedDicts ys
-
-/-- none of the three known crash shapes occurs in the creators' results -/
-def resultSafe : Result → Bool
-  | .dict d => initSafe d
-  | .gen items => (yieldedDicts (Gen.flattenList items)).all (fun d => initSafe d && !basenameBad d)
-  | _ => true
-
-def Safe (cs : List Creator) : Bool := cs.all (fun c => resultSafe c.result)
 
 /-- keys that a generator's yields *replace* (finding `yield-replaces-task`): a `name: None` dict or a Task object
     arriving when its key is already in the generator's task dictionary.  `keysAfter` mirrors the keys that
